@@ -71,6 +71,12 @@ def run(repo, tier) -> Result:
     check_calculate_driver("C02", res, repo, want=("R-SKIP", "R-SWEEP"))
     check_resume("C02", res, repo.method("hexital.core.indicator", "Indicator", "_find_calc_index"), "self.candles", "membership", repo=repo)
     check_collapse_targets("C02", res, repo)
+    # closed buckets stay what they are: the walk and the fill step do the same thing on every pass (a fill candle that appears later
+    # between two closed buckets repaints history)
+    from ..manager_rules import check_collapse, check_fill
+
+    check_collapse("C02", res, repo, want=("R-CONSERVE", "R-FILLPATH"))
+    check_fill("C02", res, repo)
     from ..contracts import check_all
 
     check_all("C02", res, repo)
